@@ -33,6 +33,15 @@
 (* response, another client's interleaved write (il), the submitted        *)
 (* transaction with its outcome (sub).                                     *)
 (*                                                                         *)
+(* The declared write set of a transaction is a LIST of records (a record  *)
+(* may be repeated, replaced by a copy of another one, appended, reordered,*)
+(* re-labelled to another contract's bucket); verification compares it     *)
+(* with the executed set as a collection of records, the commit applies    *)
+(* the records in order.  What a commit stored is observed by four         *)
+(* readers (Obs): the executing node (warm version cache), a node that has *)
+(* only the stored data, a range read on each, and the write record each   *)
+(* stored version (transaction, offset) refers to.                         *)
+(*                                                                         *)
 (* IDEAL = all KF_* FALSE: the invariants of the property hold.  Each KF_* *)
 (* switches one clause to what the code does instead (DESIGN section 4).   *)
 (***************************************************************************)
@@ -169,8 +178,9 @@ Required(f, k, p) == LET r == RunF(f, Env("live", k, {}, NU, Inf, Inf), p) IN IF
 (* The declared write set is a LIST of records (key, value), as the transaction carries it: the honest one has one record per    *)
 (* written key in key order; a tampered one may repeat a key, repeat a whole record or have its records in another order.       *)
 (* The declared read set is the function rd plus a list rdx of further records for keys that have a record already.             *)
+(* fw: the transaction declares a write (and a current read) of a key of ANOTHER contract's bucket.                              *)
 OutSeq(w) == LET s == SetToSortSeq({n \in Keys : w[n] # NoWrite}, <) IN [i \in 1..Len(s) |-> [n |-> s[i], v |-> w[s[i]]]]
-Honest(rp, p, a) == [prog |-> p, amt |-> a, hasreq |-> TRUE, rd |-> rp.rd, rdx |-> <<>>, wl |-> OutSeq(rp.wr), ev |-> rp.ev, dcin |-> rp.cin,
+Honest(rp, p, a) == [prog |-> p, amt |-> a, hasreq |-> TRUE, rd |-> rp.rd, rdx |-> <<>>, wl |-> OutSeq(rp.wr), fw |-> FALSE, ev |-> rp.ev, dcin |-> rp.cin,
                      dcout |-> rp.cout, lim |-> rp.lim, fee |-> IF rp.gas > 0 THEN rp.gas ELSE -1, toC |-> a,
                      rin |-> rp.cin, rout |-> rp.cout]
 Declared(tx) == {n \in Keys : tx.rd[n] # Undecl}
@@ -201,7 +211,10 @@ Params(kind, tx) ==
     [] kind = "read_add"    -> {T(kind, n, "", 0, "", <<>>) : n \in Keys \ Declared(tx)}
     [] kind = "write_drop"  -> {T(kind, n, "", 0, "", <<>>) : n \in Written(tx)}
     [] kind = "write_add"   -> {T(kind, n, "z", 0, "", <<>>) : n \in Keys \ Written(tx)}
-    [] kind = "write_val"   -> ({T(kind, n, v, 0, "", <<>>) : n \in Written(tx), v \in {"z", DelMark}} \ {T(kind, n, RecVal(tx, n), 0, "", <<>>) : n \in Written(tx)})
+    \* another value: "z", the delete mark, or ("!") a value of the same length as the executed one
+    [] kind = "write_val"   -> ({T(kind, n, v, 0, "", <<>>) : n \in Written(tx), v \in {"z", DelMark, "!"}} \ {T(kind, n, RecVal(tx, n), 0, "", <<>>) : n \in Written(tx)})
+    \* the record of key n names the same key of another contract's bucket (and a current read of that key is declared with it)
+    [] kind = "write_bucket" -> {T(kind, n, "", 0, "", <<>>) : n \in Written(tx)}
     \* the record of key n overwritten with a copy of the record of key j (same number of records)
     [] kind = "write_dup"   -> {T(kind, n, "", j, "", <<>>) : n \in Written(tx), j \in Written(tx)} \ {T(kind, n, "", n, "", <<>>) : n \in Written(tx)}
     \* the records of keys n and j change places
@@ -230,6 +243,8 @@ Params(kind, tx) ==
     [] kind = "cout_less"   -> {T(kind, 0, "", j, "", <<>>) : j \in {j \in 1..Len(tx.rout) : tx.rout[j].amt >= 2}}
     [] kind = "cout_freeze" -> {T(kind, 0, "", j, "", <<>>) : j \in 1..Len(tx.rout)}
     [] kind = "cin_omit"    -> IF tx.dcin > 0 THEN {T(kind, 0, "", 0, "", <<>>)} ELSE {}
+    \* one more utxo of the vault spent (the surplus is the client's change) without being declared a contract input
+    [] kind = "cin_steal"   -> IF tx.dcin < NU THEN {T(kind, 0, "", 0, "", <<>>)} ELSE {}
     [] kind = "cin_extra"   -> IF tx.dcin < NU THEN {T(kind, 0, "", 0, "", <<>>)} ELSE {}
     [] kind = "req_drop"    -> {T(kind, 0, "", 0, "", <<>>)}
     [] OTHER -> {}
@@ -241,6 +256,7 @@ Tampered(tx, t, k) ==
     [] t.tk = "read_add"    -> [tx EXCEPT !.rd[t.n] = k[t.n].ver]
     [] t.tk = "read_dup"    -> [tx EXCEPT !.rdx = Append(@, [n |-> t.n, ver |-> t.v])]
     [] t.tk = "write_drop"  -> [tx EXCEPT !.wl = SelectSeq(tx.wl, LAMBDA r : r.n # t.n)]
+    [] t.tk = "write_bucket" -> [tx EXCEPT !.wl = SelectSeq(tx.wl, LAMBDA r : r.n # t.n), !.fw = TRUE]
     [] t.tk \in {"write_add", "write_app", "write_rep"} -> [tx EXCEPT !.wl = Append(@, [n |-> t.n, v |-> t.v])]
     [] t.tk = "write_val"   -> [tx EXCEPT !.wl = [i \in 1..Len(tx.wl) |-> IF tx.wl[i].n = t.n THEN [n |-> t.n, v |-> t.v] ELSE tx.wl[i]]]
     [] t.tk = "write_dup"   -> [tx EXCEPT !.wl = [i \in 1..Len(tx.wl) |-> IF tx.wl[i].n = t.n THEN [n |-> t.j, v |-> RecVal(tx, t.j)] ELSE tx.wl[i]]]
@@ -261,6 +277,7 @@ Tampered(tx, t, k) ==
     [] t.tk = "cout_less"   -> [tx EXCEPT !.rout[t.j].amt = @ - 1]
     [] t.tk = "cout_freeze" -> [tx EXCEPT !.rout[t.j].to = @ \o "!"]                  \* another output than the contract's: same receiver, frozen
     [] t.tk = "cin_omit"    -> [tx EXCEPT !.rin = 0]
+    [] t.tk = "cin_steal"   -> [tx EXCEPT !.rin = @ + 1]
     [] t.tk = "cin_extra"   -> [tx EXCEPT !.dcin = @ + 1, !.rin = @ + 1]      \* one more utxo of the vault declared and spent; the surplus is the client's change
     [] t.tk = "req_drop"    -> [tx EXCEPT !.hasreq = FALSE]
 
@@ -268,7 +285,7 @@ Tampered(tx, t, k) ==
 Fresh(tx, k) == /\ \A n \in Declared(tx) : tx.rd[n] = k[n].ver                      \* GenRWSetFromTx / xmodel verifyInputs: every record
                 /\ \A i \in 1..Len(tx.rdx) : tx.rdx[i].ver = k[tx.rdx[i].n].ver
 GasOK(tx) == LET g == Gas(tx.lim.c, tx.lim.x) IN IF tx.fee = -1 THEN g = 0 ELSE tx.fee > 0 /\ tx.fee >= g
-NoExt(tx) == Declared(tx) = {} /\ tx.rdx = <<>> /\ tx.wl = <<>> /\ tx.ev = <<>> /\ tx.dcin = 0 /\ tx.dcout = <<>>
+NoExt(tx) == Declared(tx) = {} /\ tx.rdx = <<>> /\ tx.wl = <<>> /\ ~tx.fw /\ tx.ev = <<>> /\ tx.dcin = 0 /\ tx.dcout = <<>>
 VerifyF(f, tx, k) ==
   /\ tx.rin <= tx.dcin                        \* verifyUTXOPermission: an input of the vault needs to be a declared contract input
   /\ IF ~tx.hasreq THEN NoExt(tx)             \* no request: no read / write set allowed
@@ -277,7 +294,7 @@ VerifyF(f, tx, k) ==
           /\ GasOK(tx)
           /\ LET r == RunF(f, Env("rs", k, Declared(tx), tx.dcin, tx.lim.c, tx.lim.x), tx.prog) IN
              /\ r.st = "ok" \/ (f.st500 /\ r.st = "s500")
-             /\ SameRecords(tx.wl, r.out) /\ r.ev = tx.ev /\ r.un = tx.dcin /\ r.uout = tx.dcout       \* xmodel.Equal on the whole write set
+             /\ SameRecords(tx.wl, r.out) /\ ~tx.fw /\ r.ev = tx.ev /\ r.un = tx.dcin /\ r.uout = tx.dcout       \* xmodel.Equal on the whole write set
           /\ f.unbound \/ (tx.rin = tx.dcin /\ BagIncl(tx.dcout, tx.rout))
 CommitOK(tx, k) ==
   /\ Fresh(tx, k)
@@ -384,7 +401,7 @@ RespObs(rp) ==
 (* the same two nodes.  All of them are functions of kv: a commit changes exactly the keys of the write set for every reader.   *)
 LiveKeys == SetToSortSeq({k \in Keys : kv[k].val # Absent}, <)
 Obs == [keys |-> [k \in Keys |-> kv[k]], cold |-> [k \in Keys |-> kv[k]], ref |-> [k \in Keys |-> IF kv[k].ver = "none" THEN 0 ELSE k],
-        scan |-> LiveKeys, cscan |-> LiveKeys,
+        scan |-> LiveKeys, cscan |-> LiveKeys, foreign |-> <<"none", "none", "none">>,      \* nothing ever reaches the other contract's keys
         bal |-> bal, transient |-> <<"none", "none", "none">>, resp |-> RespObs(resp)]
 
 (* ------------------------------------------------------------------ invariants ----- *)
@@ -406,7 +423,7 @@ CommitExact ==
                              /\ bal.v = sub.bal0.v - resp.cin * UAmt + SumTo(resp.cout, "v")
                              /\ bal.a = sub.bal0.a - amt - resp.gas /\ bal.c = sub.bal0.c + amt
 (* each single tampering that makes the transaction claim something its execution does not produce, or pay less, is refused *)
-MustReject == {"read_ver", "write_drop", "write_add", "write_val", "write_dup", "write_app", "limit_below", "fee_below", "amt_req", "amt_out",
+MustReject == {"read_ver", "write_drop", "write_add", "write_val", "write_dup", "write_app", "write_bucket", "cin_steal", "limit_below", "fee_below", "amt_req", "amt_out",
                "ev_alter", "ev_drop", "ctr_alter", "redirect", "cout_drop", "cout_less", "cout_freeze", "cin_omit", "cin_extra"}
 TamperRejected == (Done /\ sub.t.tk \in MustReject) => sub.res = "reject"
 (* a declared read that is not current *)
@@ -420,7 +437,7 @@ AdmittedSound ==
      /\ Fresh(sub.tx, sub.kv0)
      /\ LET r == RunF(Ideal, Env("rs", sub.kv0, Declared(sub.tx), sub.tx.dcin, Inf, Inf), sub.tx.prog) IN
         /\ r.st = "ok"
-        /\ SameWrites(sub.tx.wl, r.out) /\ r.ev = sub.tx.ev
+        /\ SameWrites(sub.tx.wl, r.out) /\ ~sub.tx.fw /\ r.ev = sub.tx.ev
         /\ r.un = sub.tx.rin /\ BagIncl(r.uout, sub.tx.rout)
         /\ (IF sub.tx.fee > 0 THEN sub.tx.fee ELSE 0) >= Gas(r.uc, r.ux)
      /\ sub.tx.amt = 0 \/ sub.tx.toC = sub.tx.amt
